@@ -85,3 +85,6 @@ META = {
              "never computed by the model. The highload dictionary reuses C05's model and theorems."),
     'technique': 'Coq model + layout / round-trip / signature theorems under explicit idealisations; extracted-model correspondence with oracle columns; exhaustive bit-flip oracle on the implementation; translated-constant obligations',
 }
+
+# ROUND-8-APPEND-2
+PROP['rule'] += ' Round 8: representation independence of the expiry (c14_r8.go; classes expiry-rep|..., entry-rep|..., body-rep|..., payload-rep|...): for every version and with / without WithMessageLifetime, an unset ValidUntil given in 17 representations of the zero instant (Time{}, UTC(), Local(), fixed zones, JSON/text/binary decoded with an offset, Unix(-62135596800,0), Date(1,1,1) in a zone, Add(0)/Round(0)) and set expiries given in 10 representations (Local/UTC/fixed zones, monotonic reading, JSON/binary round trip, +999999999 ns, Date in +14h) through CreateMessageBody (kind c14.expiry), RawSend, RawSendV2 and CreateMessageBody (kind c14.entry; the zero instant too for RawSend/RawSendV2) vs the model, whose expiry is an option Z with no representation; oracle c14-expiry-representation: result = result of the canonical representation, also for the whole signed body, the v5r1 CreateSignedMsgBodyCell with extended actions and the RawSendV2 payload; oracle c14-option-representation: Sendables by value / by pointer, empty / absent Sendable list, nil / empty raw message slice and an equal option list give the same body.'
